@@ -100,6 +100,11 @@ class Bounds:
             n = closure_from_fn_len(self.b)
             if n is not None:
                 return (0, n - 1)
+        if t[0] == 'param' and t[1] == 2 and self.b.kind == 'Closure':
+            # the element a closure receives from `[0, 1, 2, 3].map(closure)` (and from nothing else): the hull of the literal
+            r = closure_array_map_range(self.b)
+            if r is not None:
+                return r
         if t[0] == 'param' and t[1] >= 2 and self.b.kind == 'Closure' and depth < 6:
             # parameter of a local closure that is only ever called directly (`let f = |i| ..; f(0); f(1)`): the hull of the arguments
             prog = self.b.prog
@@ -167,9 +172,27 @@ class Bounds:
             return self.len_of(t[2])
         return None
 
+    def _unsized(self):
+        """{term of an unsizing cast `&[T; N] -> &[T]`: N}: the length a slice had when it still was an array"""
+        if not hasattr(self, '_unsized_map'):
+            m = {}
+            for i, j, st in self.b.stmts():
+                rv = st['rv']
+                if rv['k'] == 'cast' and rv['op'].get('k') in ('copy', 'move') and not rv['op']['place']['proj'] and re.match(r'^&\s*(mut\s+)?\[[^;]*\]$', rv.get('ty', '')):
+                    n = array_len_of_type(self.b.local_ty(rv['op']['place']['local']).lstrip('&').replace('mut ', '', 1).strip())
+                    if n is not None:
+                        m[strip(self.b.rv_term(rv, (i, j)))] = n
+                        m[strip(self.b.op_term(rv['op'], (i, j)))] = n          # the array reference itself
+            self._unsized_map = m
+        return self._unsized_map
+
     def len_of(self, t):
         t0 = t
         t = strip(t)
+        if isinstance(t, tuple) and t[0] in ('cast', 'fld', 'as'):
+            n = self._unsized().get(t)
+            if n is not None:
+                return (n, n)
         while isinstance(t, tuple) and t[0] == 'cast':
             t = strip(t[1])
         # the payload of an Option<[T; N]> (or a copy of it): opt.unwrap_or_else(|| DEFAULT), opt.unwrap(), .clone(), (opt as Some).0
@@ -192,6 +215,8 @@ class Bounds:
             n = array_len_of_type(self.b.local_ty(l))
             if n is not None:
                 return (n, n)
+        if isinstance(t, tuple) and t[0] == 'call' and cname(t[1]) == 'array::map' and len(t) == 4:
+            return self.len_of(t[2])                  # [T; N]::map keeps the length
         if isinstance(t, tuple) and t[0] == 'agg' and t[1] == 'array':
             return (len(t) - 2, len(t) - 2)
         if isinstance(t, tuple) and t[0] == 'repeat':
@@ -205,6 +230,34 @@ class Bounds:
             if n is not None:
                 return (n, n)
         return None
+
+
+def closure_array_map_range(cb):
+    """(min, max) of the integer literals of the array a closure is mapped over with `array::map`, when that is its only use"""
+    prog = cb.prog
+    lo = hi = None
+    for pb in prog.bodies.values():
+        makes = any(st['rv']['k'] == 'agg' and isinstance(st['rv'].get('kind'), dict) and st['rv']['kind'].get('closure') == cb.path for i, j, st in pb.stmts())
+        if not makes:
+            continue
+        for bi, ct in pb.calls():
+            if ct['callee'].get('resolved') == cb.path:
+                return None                      # also called directly: the other rule bounds it
+            for k, a in enumerate(ct['args']):
+                cl, _ = util.closure_of_term(prog, pb.op_term(a, (bi, None)))
+                if cl is None or cl.path != cb.path:
+                    continue
+                if cname(callee_name(ct)) != 'array::map' or k != 1:
+                    return None
+                arr = strip(pb.op_term(ct['args'][0], (bi, None)))
+                if not (isinstance(arr, tuple) and arr[0] == 'agg' and arr[1] == 'array' and len(arr) > 2):
+                    return None
+                vals = [util.const_val(x) for x in arr[2:]]
+                if not all(isinstance(v, int) and not isinstance(v, bool) for v in vals):
+                    return None
+                lo = min(vals) if lo is None else min(lo, min(vals))
+                hi = max(vals) if hi is None else max(hi, max(vals))
+    return None if lo is None else (lo, hi)
 
 
 def closure_from_fn_len(cb):
